@@ -81,14 +81,18 @@ def find_referenced_templates(ast: nodes.Template) -> t.Iterator[str | None]:
 
         if not isinstance(template, nodes.Const):
             # a tuple with some non consts in there
-            if isinstance(template, (nodes.Tuple, nodes.List)):
+            if isinstance(template, (nodes.Tuple, nodes.List)) and isinstance(
+                node, nodes.Include
+            ):
                 for template_name in template.items:
-                    # something const, only yield the strings and ignore
-                    # non-string consts that really just make no sense
-                    if isinstance(template_name, nodes.Const):
-                        if isinstance(template_name.value, str):
-                            yield template_name.value
-                    # something dynamic in there
+                    # something const, yield the strings; a non-string const
+                    # can still name a template for a loader, report it as
+                    # unknown
+                    if isinstance(template_name, nodes.Const) and isinstance(
+                        template_name.value, str
+                    ):
+                        yield template_name.value
+                    # something dynamic (or not a string) in there
                     else:
                         yield None
             # something dynamic we don't know about here
@@ -107,6 +111,8 @@ def find_referenced_templates(ast: nodes.Template) -> t.Iterator[str | None]:
             for template_name in template.value:
                 if isinstance(template_name, str):
                     yield template_name
+                else:
+                    yield None
         # something else we don't care about, we could warn here
         else:
             yield None
